@@ -225,7 +225,7 @@ pub fn minimise_miri(verif: &str, first: &MiriOutcome, budget: Duration) -> (Str
     let mut tried = 0usize;
     let seeds = "-Zmiri-many-seeds=0..6 -Zmiri-many-seeds-keep-going";
     let same = |m: &MiriOutcome| m.ran && ((want_race && m.data_race) || (!want_race && m.mismatch));
-    let mut attempt = |cand: &Vec<String>, th: usize, tried: &mut usize| -> Option<MiriOutcome> {
+    let attempt = |cand: &Vec<String>, th: usize, tried: &mut usize| -> Option<MiriOutcome> {
         *tried += 1;
         let text = cand.join("\n") + "\n";
         let m = run_miri(verif, &text, th, seeds, Duration::from_secs(120));
